@@ -182,6 +182,11 @@ impl Ctx {
 
     pub fn level_done(&self, name: &str) {
         self.levels.lock().unwrap().push(name.to_string());
+        // seconds since the start at which each level completed (for tuning the tiers)
+        let mut e = self.extra.lock().unwrap();
+        let mut v = e.get("level_completed_at_s").and_then(|v| v.as_array().cloned()).unwrap_or_default();
+        v.push(json!((self.start.elapsed().as_secs_f64() * 10.0).round() / 10.0));
+        e.insert("level_completed_at_s".to_string(), Value::Array(v));
     }
 
     pub fn set_extra(&self, k: &str, v: Value) {
